@@ -137,8 +137,8 @@ impl Property for C20 {
     }
     fn budget(&self, tier: Tier) -> u64 {
         match tier {
-            Tier::Quick => 200_000,
-            Tier::Thorough => 6_000_000,
+            Tier::Quick => 1_500_000,
+            Tier::Thorough => 20_000_000,
         }
     }
     fn generate(&self, seed: u64, run: u64, _tier: Tier, _avoid: &BTreeSet<String>) -> MacCase {
